@@ -56,3 +56,9 @@ def run(ctx, proofs_ok):
          "n": (600, 3000), "count": (1, 6), "backend": "pebble", "events": {"gc": 0.08, "flush": 0.03, "reopen": 0.02}},
     ], extra=[("exhaustive set algebra over missing / emptied / repeated / wrong-typed operands", algebra_ops(), False),
               ("source = destination: SMOVE k k m and *STORE onto an operand, on sets of 0, 1, 2 members", alias_ops(), False)])
+    if ctx.violations:
+        return
+    # the command layer (argument text, option words, replies) of the same families over the network protocol
+    apicheck.run_resp_streams(ctx, [
+        {"label": "hash and set commands over the network protocol (handlers) against the model", "fams": ['hashes', 'sets', 'hashes', 'sets', 'keyspace'], "n": (2500, 8000), "count": (2, 16), "conns": 1},
+    ])
